@@ -113,6 +113,7 @@ class Mk:
         return value
 
     def array(self, name, shape, sort="real"):
+        """sort: 'real' | 'int' | 'bool' | 'xreal' (reals that may be NaN)"""
         a = sym_array(name, tuple(shape), sort)
         self.obs[name] = ("array", a.func, tuple(shape), sort)
         return self.st.alloc(a, name)
@@ -403,6 +404,7 @@ def verify_contract(prop, contract, registry=None, options=None, sizes=None, onl
         ctx.interp = interp
         lib.CUR_INTERP[0] = interp
         lib.USED.clear()
+        lib.OPTIONS["finite_reals"] = bool(contract.options.get("finite_reals"))
         st = State()
         st.env = Env(module=mod)
         mk = Mk(st, sizes)
@@ -504,6 +506,8 @@ def describe(st, v):
         return ("carray", list(d.shape), {",".join(map(str, k)): describe(st, x) for k, x in d.data.items()})
     if isinstance(d, Arr):
         if getattr(d, "func", None) is not None and not d.ups:
+            if getattr(d, "nanfunc", None) is not None:
+                return ("xarray", d.func, tuple(d.shape), d.nanfunc)
             return ("array", d.func, tuple(d.shape), d.sort)
         return ("opaque", "array")
     if isinstance(d, dict):
@@ -531,7 +535,7 @@ def _read(m, desc):
         return desc[1]
     if kind == "carray":
         return {"shape": desc[1], "cells": {k: _read(m, x) for k, x in desc[2].items()}}
-    if kind == "array":
+    if kind in ("array", "xarray"):
         f, shape = desc[1], desc[2]
         dims = []
         for sh in shape:
@@ -542,6 +546,8 @@ def _read(m, desc):
         cells = {}
         for k in itertools.product(*[range(n) for n in dims]):
             cells[",".join(map(str, k))] = _model_value(m, f(*[z3.IntVal(i) for i in k]))
+            if kind == "xarray" and _model_value(m, desc[3](*[z3.IntVal(i) for i in k])) is True:
+                cells[",".join(map(str, k))] = "nan"
         return {"shape": dims, "cells": cells}
     if kind == "dict":
         return {k: _read(m, x) for k, x in desc[1].items()}
